@@ -150,6 +150,7 @@ def run(rep, tier):
     taint_family(rep, F)
     orient_args(rep, F)
     kernel_dispatch(rep, F)
+    integer_kernel(rep, F)
     tables(rep, F, tier)
 
 
@@ -183,18 +184,18 @@ def kernel_binding(rep, F):
     rep.floor("R3.1", "GeoNum impls", n, 7)
 
 
-def kernel_bodies(rep, F):
-    rep.rule("R3.2", "RobustKernel::orient2d = sign(robust::orient2d(p,q,r)) with no tolerance, points passed unmodified in order; SimpleKernel uses the default sign table")
+def kernel_bodies(rep, F, rule="R3.2"):
+    rep.rule(rule, "RobustKernel::orient2d = sign(robust::orient2d(p,q,r)) with no tolerance, points passed unmodified in order; SimpleKernel uses the default sign table")
     try:
         fn = F.impl_method("geo::algorithm::kernels::Kernel", r"robust::RobustKernel$", None, "orient2d", crates=("geo",))
     except KeyError as e:
-        rep.bad("R3.2", "robust-override-missing", "RobustKernel no longer overrides orient2d (%s): the default rounded formula would be used" % e)
+        rep.bad(rule, "robust-override-missing", "RobustKernel no longer overrides orient2d (%s): the default rounded formula would be used" % e)
         return
     ex = Symex(F)
     try:
         paths = [p for p in ex.run(fn) if p.kind == "ret"]
     except Unanalysable as e:
-        rep.bad("R3.2", "robust:unanalysable", str(e), where=fn.loc())
+        rep.bad(rule, "robust:unanalysable", str(e), where=fn.loc())
         return
     table = {}
     for p in paths:
@@ -218,7 +219,7 @@ def kernel_bodies(rep, F):
                 lit = b if a[0] == "call" else a
                 if not (call[0] == "call" and call[1] == "robust::orient2d" and lit[0] == "const" and float(lit[1]) == 0.0):
                     good = False
-                    rep.bad("R3.2", "robust:tolerance", "orientation decided by %s, not by the sign of robust::orient2d against literal zero" % show(t)[:160], where=fn.loc())
+                    rep.bad(rule, "robust:tolerance", "orientation decided by %s, not by the sign of robust::orient2d against literal zero" % show(t)[:160], where=fn.loc())
                 else:
                     ocall = call
     if good and ocall is not None:
@@ -242,9 +243,9 @@ def kernel_bodies(rep, F):
         for sgn, w in want.items():
             g = decide(sgn)
             if g == w:
-                rep.ok("R3.2", "robust:sign%+d→%s" % (sgn, w))
+                rep.ok(rule, "robust:sign%+d→%s" % (sgn, w))
             else:
-                rep.bad("R3.2", "robust:sign%+d" % sgn, "robust::orient2d sign %+d is mapped to %s, expected %s" % (sgn, g, w), where=fn.loc())
+                rep.bad(rule, "robust:sign%+d" % sgn, "robust::orient2d sign %+d is mapped to %s, expected %s" % (sgn, g, w), where=fn.loc())
         # argument provenance: three Coord aggregates whose x/y are casts of p.x,p.y / q / r in order
         args = ocall[2]
         names = []
@@ -253,23 +254,103 @@ def kernel_bodies(rep, F):
             m = re.findall(r"a(\d)\.(x|y)", s)
             names.append(m)
         if names == [[("1", "x"), ("1", "y")], [("2", "x"), ("2", "y")], [("3", "x"), ("3", "y")]] and not re.search(r"bin|Add|Sub|Mul", show(ocall)):
-            rep.ok("R3.2", "robust:args(p,q,r)", sample=show(ocall)[:200])
+            rep.ok(rule, "robust:args(p,q,r)", sample=show(ocall)[:200])
         else:
-            rep.bad("R3.2", "robust:args", "robust::orient2d is not called on the unmodified points (p,q,r) in order: %s" % show(ocall)[:200], where=fn.loc())
+            rep.bad(rule, "robust:args", "robust::orient2d is not called on the unmodified points (p,q,r) in order: %s" % show(ocall)[:200], where=fn.loc())
     # default body (used by SimpleKernel): sign table of `res`
     try:
         dfn = F.one(r"^geo::algorithm::kernels::Kernel::orient2d$", crates=("geo",))
         sk = [im for im in F.impls_of("geo::algorithm::kernels::Kernel") if im["self_ty"].endswith("SimpleKernel")]
         if sk and any(it["name"] == "orient2d" for it in sk[0]["items"]):
-            rep.ok("R3.2", "simple:overrides")   # then its own body is what counts; analysed below if present
+            rep.ok(rule, "simple:overrides")   # then its own body is what counts; analysed below if present
         dpaths = [p for p in Symex(F).run(dfn) if p.kind == "ret"]
         outs = sorted(p.ret[2] for p in dpaths if p.ret[0] == "adt")
         if outs == ["Clockwise", "Collinear", "CounterClockwise"]:
-            rep.ok("R3.2", "default:three-way")
+            rep.ok(rule, "default:three-way")
         else:
-            rep.bad("R3.2", "default:table", "default orient2d does not distinguish three signs: %s" % outs, where=dfn.loc())
+            rep.bad(rule, "default:table", "default orient2d does not distinguish three signs: %s" % outs, where=dfn.loc())
     except (KeyError, Unanalysable) as e:
-        rep.bad("R3.2", "default:unanalysable", str(e))
+        rep.bad(rule, "default:unanalysable", str(e))
+
+
+def integer_kernel(rep, F, rule="R3.7"):
+    """R3.7: whatever body the integer scalars' kernel resolves to (SimpleKernel's own orient2d, else the trait default) is evaluated, as an
+    extracted decision table, on exact integer witnesses: all point triples of a 3x3 grid and near-collinear triples whose determinant is
+    +-1 while both products stay below 2^62 (they fit i64, the hypothesis of the property).  Arithmetic of the scalar type is exact integer
+    arithmetic; a conversion to f64 / f32 (`to_f64`, `as f64`, NumCast) is an IEEE rounding, so a kernel that evaluates the determinant in
+    floating point gives Collinear on those witnesses."""
+    import itertools
+    import struct
+    from ..evalterm import ArithEval, Enum, NoModel, orient
+    rep.rule(rule, "the integer kernel (SimpleKernel::orient2d, or the trait default it inherits) returns the sign of the exact determinant on every witness, including near-collinear triples with 2^30-sized coordinates whose products fit i64: the determinant is evaluated in the scalar's own exact arithmetic, not in floating point")
+    try:
+        try:
+            fn = F.impl_method("geo::algorithm::kernels::Kernel", r"simple::SimpleKernel$", None, "orient2d", crates=("geo",))
+            which = "SimpleKernel::orient2d"
+        except KeyError:
+            fn = F.one(r"^geo::algorithm::kernels::Kernel::orient2d$", crates=("geo",))
+            which = "Kernel::orient2d (default, inherited by SimpleKernel)"
+        paths = [p for p in Symex(F, inline_crates=("geo", "geo_types")).run(fn) if p.kind in ("ret", "panic")]
+    except (KeyError, Unanalysable) as e:
+        rep.bad(rule, "integer-kernel:unanalysable", str(e))
+        return
+
+    def f32(x):
+        return struct.unpack("f", struct.pack("f", float(x)))[0]
+
+    class Ev(ArithEval):
+        def ev(self, t):
+            if isinstance(t, tuple) and t and t[0] == "cast":
+                v = self.ev(t[2])
+                ty = str(t[3])
+                if ty == "f64":
+                    return float(v)
+                if ty == "f32":
+                    return f32(v)
+                return v
+            return ArithEval.ev(self, t)
+
+        def call(self, t):
+            m = t[1].rsplit("::", 1)[-1]
+            if m in ("to_f64", "to_f32") and len(t[2]) == 1:
+                v = self.ev(t[2][0])
+                return Enum("core::option::Option", "Some", [float(v) if m == "to_f64" else f32(v)])
+            if m in ("to_i128", "to_i64", "to_isize") and len(t[2]) == 1:
+                return Enum("core::option::Option", "Some", [self.ev(t[2][0])])
+            if m in ("is_positive", "is_negative", "is_zero") and len(t[2]) == 1:
+                v = self.ev(t[2][0])
+                return v > 0 if m == "is_positive" else v < 0 if m == "is_negative" else v == 0
+            if m == "signum" and len(t[2]) == 1:
+                v = self.ev(t[2][0])
+                return (v > 0) - (v < 0)
+            return ArithEval.call(self, t)
+
+    grid = [{"x": x, "y": y} for x in range(3) for y in range(3)]
+    wit = [(p, q, r) for p in grid for q in grid for r in grid]
+    for k in (27, 30):
+        a, b = 2 ** k, 2 ** (k + 1)
+        for sx, sy in ((1, 1), (-1, 1), (1, -1)):
+            p, q, r = {"x": 0, "y": 0}, {"x": sx * (a + 1), "y": sy * a}, {"x": sx * (b + 1), "y": sy * (b - 1)}
+            wit += [(p, q, r), (q, p, r), (r, q, p), (q, r, p)]
+    bad = None
+    for p, q, r in wit:
+        ev = Ev(F, {("arg", 1): p, ("arg", 2): q, ("arg", 3): r})
+        try:
+            hit = ev.select_path(paths)
+        except (NoModel, TypeError, KeyError, ZeroDivisionError) as e:
+            bad = ("integer-kernel:unanalysable", "%s cannot be evaluated on p=%s q=%s r=%s: %s" % (which, p, q, r, e))
+            break
+        want = orient(p, q, r)
+        got = [h.ret[2] if (h.kind == "ret" and h.ret[0] == "adt") else h.kind for h in hit]
+        if got != [want]:
+            bad = ("integer-kernel:table", "%s on p=(%d,%d) q=(%d,%d) r=(%d,%d) gives %s; the exact determinant %d means %s" %
+                   (which, p["x"], p["y"], q["x"], q["y"], r["x"], r["y"], got or "no row",
+                    (q["x"] - p["x"]) * (r["y"] - q["y"]) - (q["y"] - p["y"]) * (r["x"] - q["x"]), want))
+            break
+    if bad:
+        rep.bad(rule, bad[0], bad[1], where=fn.loc())
+    else:
+        rep.ok(rule, "integer-kernel[%d witnesses]" % len(wit), sample=which)
 
 
 _TAINT = {}
